@@ -1,6 +1,6 @@
 (* C04 — modules and hierarchy mirror the scanned directory tree, named from root_path. *)
 From Coq Require Import List Bool NArith.
-From PTA Require Import Names Graph Search Scan NamesProofs SearchProofs GraphProofs ScanProofs.
+From PTA Require Import Names Graph Search Scan NamesProofs SearchProofs GraphProofs ScanProofs SubscanProofs.
 Import ListNotations.
 
 (* one module per non-excluded .py file and per non-excluded directory at or below the starting directory,
@@ -42,6 +42,38 @@ Theorem C04_sub_modules :
 Proof. exact @in_desc_incl. Qed.
 Print Assumptions C04_sub_modules.
 
+(* ---- scanning a sub-directory as module_path = scanning the whole root, restricted to that sub-tree ----
+   [whole c] is the same request with module_path = root_path.  Hypotheses: each component of module_path names
+   exactly one entry of its directory and that entry is a directory ([path_ok]); neither the root directory nor a
+   directory on the way down to module_path is excluded; externals excluded (the default).
+   For the imports additionally: every absolute import name in the sub-tree is fully qualified ONLY ([unamb]: read as
+   "relative to module_path's parent" it names no module of the sub-tree - such names are the ambiguous ones, which the
+   code resolves parent-relative; see DESIGN 11.4).  Relative imports need no hypothesis. *)
+Theorem C04_subscan_modules :
+  forall (comp : Type) (ceqb : comp -> comp -> bool), (forall x y, reflect (x = y) (ceqb x y)) ->
+  forall (c : @scan_cfg comp),
+  sc_exclude_external c = true -> sc_mp c <> [] -> path_ok (sc_tree c) (sc_mp c) ->
+  sc_excl c [] = false -> (forall q r, sc_mp c = q ++ r -> q <> [] -> sc_excl c q = false) ->
+  forall r r0, scan ceqb c = Some r -> scan ceqb (whole c) = Some r0 ->
+  forall m, In m (sr_modules r) <-> In m (sr_modules r0) /\ prefixb ceqb (sc_root c :: sc_mp c) m = true.
+Proof. intros comp ceqb Hs c. exact (subscan_modules ceqb Hs (sc_excl c) (sc_root c) c eq_refl eq_refl). Qed.
+Print Assumptions C04_subscan_modules.
+
+Theorem C04_subscan_imports :
+  forall (comp : Type) (ceqb : comp -> comp -> bool), (forall x y, reflect (x = y) (ceqb x y)) ->
+  forall (c : @scan_cfg comp),
+  sc_exclude_external c = true -> sc_mp c <> [] -> path_ok (sc_tree c) (sc_mp c) ->
+  sc_excl c [] = false -> (forall q r, sc_mp c = q ++ r -> q <> [] -> sc_excl c q = false) ->
+  forall r r0, scan ceqb c = Some r -> scan ceqb (whole c) = Some r0 ->
+  (forall cs, subdir ceqb (sc_tree c) (sc_mp c) = Some cs ->
+     forall u body s, In (u, body) (F (sc_excl c) (sc_root c) cs (sc_mp c)) -> In s (collect body) ->
+       unamb ceqb (filter (is_internal ceqb c) ((sc_root c :: sc_mp c) :: W (sc_excl c) (sc_root c) cs (sc_mp c)))
+             (sc_root c :: removelast (sc_mp c)) s) ->
+  forall a b, In (a, b) (sr_imports r) <->
+              In (a, b) (sr_imports r0) /\ prefixb ceqb (sc_root c :: sc_mp c) a = true /\ prefixb ceqb (sc_root c :: sc_mp c) b = true.
+Proof. intros comp ceqb Hs c. exact (subscan_imports ceqb Hs (sc_excl c) (sc_root c) c eq_refl eq_refl). Qed.
+Print Assumptions C04_subscan_imports.
+
 (* non-vacuity: proj/{a.py, pkg/{__init__.py, b.py, notes.txt}, ab/} scanned from proj/pkg *)
 Open Scope N_scope.
 Example C04_example :
@@ -50,3 +82,19 @@ Example C04_example :
               sc_ext_excl := fun _ => false; sc_has_ext_excl := false; sc_limit := None |} in
   option_map (fun r => nodes (sr_graph r)) (scan N.eqb c) = Some [[1;3]; [1]; [1;3;9]; [1;3;4]].
 Proof. vm_compute. reflexivity. Qed.
+
+
+(* non-vacuity of the sub-scan theorems: proj/{a.py, pkg/{b.py: "import proj.pkg.d; from . import d; import proj.a", d.py}}
+   scanned from proj/pkg and from proj: same imports inside pkg (b -> d), the import of proj.a is outside *)
+Example C04_subscan_example :
+  let tree := [FFile 2 true []; FDir 3 [FFile 4 true [SImport [[1;3;5]]; SFrom 1 None [5]; SImport [[1;2]]]; FFile 5 true []]] in
+  let c := {| sc_root := 1; sc_tree := tree; sc_mp := [3]; sc_excl := fun _ => false; sc_exclude_external := true;
+              sc_ext_excl := fun _ => false; sc_has_ext_excl := false; sc_limit := None |} in
+  path_ok tree [3] /\
+  option_map (fun r => sr_imports r) (scan N.eqb c) = Some [([1;3;4], [1;3;5]); ([1;3;4], [1;3;5])] /\
+  option_map (fun r => sr_imports r) (scan N.eqb (whole c)) = Some [([1;3;4], [1;3;5]); ([1;3;4], [1;3;5]); ([1;3;4], [1;2])].
+Proof.
+  split; [|split; vm_compute; reflexivity].
+  cbn [path_ok]. eexists. split; [right; left; reflexivity|]. split; [|exact I].
+  intros n [<-|[<-|[]]]; cbn [cname]; [discriminate|reflexivity].
+Qed.
